@@ -5,6 +5,7 @@ own seed and a heavier share of the odd spellings)."""
 from __future__ import annotations
 
 from props import c06 as W
+from props import e2e as E2E
 
 PROPS_FILES = ["props/C07.v"]
 ALWAYS_SEARCH = True
@@ -18,8 +19,17 @@ ASSUMPTIONS = ["text lines are ASCII (non-ASCII input is Unmodelled and counted,
                "(the raw text kept for diagnostics and the time stamp are not compared)"]
 
 
+TRUSTED = list(TRUSTED) + list(E2E.TRUSTED)
+ASSUMPTIONS = list(ASSUMPTIONS) + list(E2E.ASSUMPTIONS)
+
+
+def gen(ctx):
+    E2E.gen(ctx)     # end-to-end theorems (every entry point -> returned message) for the tables of this run
+
+
 def correspond(ctx):
-    return [W.corr_parsers(ctx, "C07", ctx.n(450, 4000), ctx.n(500, 5000))]
+    return [W.corr_parsers(ctx, "C07", ctx.n(450, 4000), ctx.n(500, 5000))] + \
+        E2E.correspond(ctx, prop="C07", n_tcp=ctx.n(30, 200), n_other=ctx.n(60, 400), n_wide=ctx.n(10, 60))
 
 
 # ------------------------------------------------------------------ property oracle on the real code
@@ -211,11 +221,14 @@ def search(ctx):
         ps = rng.getrandbits(8) if pf < 240 else (pgn & 0xFF)
         ident = (rng.getrandbits(3) << 26) | ((pgn >> 8) << 16) | (ps << 8) | rng.getrandbits(8)
         add(check_fast(ident, payload, rng))
+    out += E2E.search(ctx)
     return out
 
 
 def replay(ctx, data):
     w = data.get("witness", data)
+    if w.get("kind") == "e2e-glue":
+        return E2E.replay(ctx, data)
     inputs = [i for i in w["inputs"]] if w.get("kind") != "fast" else None
     if w.get("kind") == "fast":
         import random
